@@ -184,6 +184,10 @@ IsCovering(C, S, proj) ==
    /\ \A a, b \in Chambers(S) : Cardinality({d \in Chambers(C) : proj[d] = a}) = Cardinality({d \in Chambers(C) : proj[d] = b})
 \* the projection all cover constructors of the library use: sheet k holds chambers k*n+1 .. (k+1)*n
 StdProj(C, S) == [d \in Chambers(C) |-> ((d - 1) % S.n) + 1]
+\* C covers S: by the library's standard projection (a witness that costs nothing to check) or, failing that, by ANY
+\* morphism with equal fibres (a connected C has at most |S| morphisms onto S, each determined by the image of chamber 1)
+IsCoverOf(C, S) == IF C.n % S.n = 0 /\ IsCovering(C, S, StdProj(C, S)) THEN TRUE
+                ELSE \E f \in Morphisms(C, S) : IsCovering(C, S, f)
 \* the sub-symbol on the orbit of d under the indices in the sequence idcs, chambers renumbered increasingly
 Sub(S, idcs, d) ==
    LET O == Orbit(S, ToSet(idcs), d)
